@@ -696,6 +696,9 @@ func (rs *RSched) tryRLock(p unsafe.Pointer, site int) bool {
 }
 
 //go:norace
+func (rs *RSched) syncMark() { rs.cur.SyncOps++ }
+
+//go:norace
 func (rs *RSched) syncOp(site int) {
 	rs.cur.SyncOps++
 	rs.yield(site, 1)
